@@ -161,7 +161,7 @@ func checkC20(c *Check) {
 			for root.Parent() != nil {
 				root = root.Parent()
 			}
-			okf := root == vr || root == fa || root == em || root.Name() == "handleManifest" || root.Name() == "run" && strings.Contains(fnName(root), "service")
+			okf := inCodeOf(vr, root) || inCodeOf(fa, root) || inCodeOf(em, root) || root.Name() == "handleManifest" || root.Name() == "run" && strings.Contains(fnName(root), "service")
 			c.Ob("R1", "reply sent from "+fnName(fn), s.Pos(), okf, "a reply is written outside the queue discipline (risk of double reply)")
 		})
 	}
@@ -381,9 +381,17 @@ func checkC20(c *Check) {
 			// pending acknowledged only after the announcement loop
 			h := loopHeaderOf(pub.Block())
 			okAck := false
-			eachInstr(em, func(i ssa.Instruction) {
+			eachInstrDeep(em, func(i ssa.Instruction) {
 				if s, isS := i.(*ssa.Send); isS && strings.Contains(nrm(Sym(s.Chan)), "p:m.pendingRequests[") && isNilConst(stripConv(s.X)) && h != nil {
-					if h.Succs[1] == s.Block() || h.Succs[1].Dominates(s.Block()) {
+					if s.Parent() == pub.Parent() {
+						if h.Succs[1] == s.Block() || h.Succs[1].Dominates(s.Block()) {
+							okAck = true
+						}
+						return
+					}
+					// announcement and acknowledgement live in different (new) helpers: compare their calls in em
+					pl, al := liftTo(em, pub), liftTo(em, s)
+					if pl != nil && al != nil && pl != al && instrDominates(pl, al) {
 						okAck = true
 					}
 				}
